@@ -51,6 +51,8 @@ type Prog struct {
 	byName map[string]*ssa.Function
 	// closures[f] = anonymous functions created (transitively) inside f, in source order
 	callers      map[*ssa.Function][]callSite // static call sites per module callee
+	diagMemo     map[*ssa.Function]bool       // diagnostic (stderr-only) functions, see diagnosticFns
+	pureMemo     map[*ssa.Function]bool       // effect-free functions, see pureFns
 	mentioned    map[*ssa.Function]bool       // functions that occur as an operand anywhere (lazily filled)
 	nCalls       int
 	canonEnv     env // parameter substitution in effect while canonE runs
@@ -454,6 +456,7 @@ func thinWrapperTarget(p *Prog, f *ssa.Function) *ssa.Function {
 	if !ok {
 		return nil
 	}
+	exact := true
 	for i, r := range ret.Results {
 		if r == ssa.Value(call) {
 			continue
@@ -461,6 +464,24 @@ func thinWrapperTarget(p *Prog, f *ssa.Function) *ssa.Function {
 		if ex, ok := r.(*ssa.Extract); ok && ex.Tuple == ssa.Value(call) && ex.Index == i {
 			continue
 		}
+		exact = false
+	}
+	if exact {
+		return g
+	}
+	// a projection: the old name kept after the implementation gained a result (readEvents(path) = events, err of
+	// readEventsInfo(path) = events, tornTail, err): the results handed back are results of the call, in their order, the
+	// last one (the error) included
+	last := -1
+	gres := g.Signature.Results().Len()
+	for _, r := range ret.Results {
+		ex, ok := r.(*ssa.Extract)
+		if !ok || ex.Tuple != ssa.Value(call) || ex.Index <= last {
+			return nil
+		}
+		last = ex.Index
+	}
+	if len(ret.Results) == 0 || last != gres-1 {
 		return nil
 	}
 	return g
